@@ -1,7 +1,154 @@
 import ASV.Drv.J
+import ASV.Model.Regions
+import ASV.Spec.Components
 namespace ASV.Drv.C06
-open Lean ASV ASV.Drv
+open Lean ASV ASV.Drv ASV.Regions
 
-def handle (_j : Json) : R Json := throw "C06: no model yet"
+def natsOfJson (j : Json) : R (List Nat) := listOf asNat j
+
+def opOfJson (j : Json) : R Op := do
+  let tag ← asStr (← idx j 0)
+  match tag with
+  | "addProto" => return .addProto (← locOfJson (← idx j 1))
+  | "addSub" => return .addSub (← locOfJson (← idx j 1))
+  | "mkCand" => return .mkCand (← natsOfJson (← idx j 1))
+  | "addCand" => return .addCand (← asNat (← idx j 1))
+  | "reparent" => return .reparent (← natsOfJson (← idx j 1)) (← asNat (← idx j 2))
+  | "addRegion" => return .addRegion (← natsOfJson (← idx j 1)) (← natsOfJson (← idx j 2))
+  | "clearProtos" => return .clearProtos
+  | "clearCands" => return .clearCands
+  | "clearSubs" => return .clearSubs
+  | "clearRegions" => return .clearRegions
+  | "createRegions" => return .createRegions
+  | t => throw s!"C06: unknown op {t}"
+
+def optNat : Option Nat → Json
+  | some n => toJson n
+  | none => Json.null
+
+/-- parent of a protocluster: the id of a candidate cluster of the record, null, or -1 (stale) -/
+def protoParent (s : State) (f : Feat) : Json :=
+  match s.parentOf f.id with
+  | none => Json.null
+  | some c => if s.cands.any (·.id == c) then toJson c else toJson (-1 : Int)
+
+/-- parent of a candidate / subregion: the number of a region of the record, null, or -1 (stale) -/
+def areaParent (s : State) (f : Feat) : Json :=
+  match s.parentOf f.id with
+  | none => Json.null
+  | some r => match posOf s.regions r with
+    | some n => toJson n
+    | none => toJson (-1 : Int)
+
+def dump (s : State) : Json :=
+  jObj [
+    ("protos", jArr (s.protos.map fun f => jArr [toJson f.id, optNat (numberOf s.numP f), locToJson f.loc, protoParent s f])),
+    ("cands", jArr (s.cands.map fun f => jArr [toJson f.id, optNat (numberOf s.numC f), locToJson f.loc, areaParent s f, toJson f.kids])),
+    ("subs", jArr (s.subs.map fun f => jArr [toJson f.id, optNat (numberOf s.numS f), locToJson f.loc, areaParent s f])),
+    ("regions", jArr (s.regions.map fun f => jArr [optNat (numberOf s.numR f), locToJson f.loc, toJson f.kids, toJson f.subs, toJson f.cdses])),
+    ("cds", jArr ((List.range s.cds.length).map fun i => match s.regionOfCds i with
+        | none => Json.null
+        | some r => match posOf s.regions r with
+          | some n => toJson n
+          | none => toJson (-1 : Int)))]
+
+/-! ### the implementation's dump, re-read for the executable spec -/
+
+structure ImplDump where
+  protos : List (Nat × Nat × Loc)          -- id, number, location
+  cands : List (Nat × Nat × Loc)
+  subs : List (Nat × Nat × Loc)
+  regions : List (Nat × Loc × List Nat × List Nat)   -- number, location, candidate ids, subregion ids
+
+def rowOf (j : Json) : R (Nat × Nat × Loc) := do
+  let num := match (do asNat (← idx j 1) : R Nat) with | .ok n => n | .error _ => 0
+  return (← asNat (← idx j 0), num, ← locOfJson (← idx j 2))
+
+def implOfJson (j : Json) : R ImplDump := do
+  let regions ← listOf (fun r => do
+    let num := match (do asNat (← idx r 0) : R Nat) with | .ok n => n | .error _ => 0
+    return (num, ← locOfJson (← idx r 1), ← natsOfJson (← idx r 2), ← natsOfJson (← idx r 3))) (← fld j "regions")
+  return ⟨← listOf rowOf (← fld j "protos"), ← listOf rowOf (← fld j "cands"), ← listOf rowOf (← fld j "subs"), regions⟩
+
+open ASV.Components in
+def specOn (L : Int) (circ : Bool) (d : ImplDump) : Json :=
+  -- candidate ids and subregion ids share one id space
+  let areas : List Area := (d.cands ++ d.subs).map fun x => (x.1, x.2.2)
+  let regions := d.regions.map fun r => (r.2.1, r.2.2.1 ++ r.2.2.2)
+  let v := judgeRegions L circ areas regions
+  let ordered := fun (rows : List (Nat × Nat × Loc)) =>
+    numbered (rows.map (·.2.1)) && sortedByKey L (rows.map (·.2.2))
+  jObj [
+    ("partition", toJson v.partition), ("disjoint", toJson v.disjoint), ("exact", toJson v.exact), ("wf", toJson v.wf),
+    ("classes", toJson (classIds areas)),
+    ("order_protos", toJson (ordered d.protos)),
+    ("order_cands", toJson (ordered d.cands)),
+    ("order_subs", toJson (ordered d.subs)),
+    ("order_regions", toJson (numbered (d.regions.map (·.1)) && sortedByKey L (d.regions.map (·.2.1)))),
+    ("half", toJson (circ && halfRecordComponent L areas)),
+    ("clash", toJson (circ && (fullRecordClash L (d.protos.map (·.2.2)) || fullRecordClash L (areas.map (·.2))
+                               || fullRecordClash L (d.regions.map (·.2.1)))))]
+
+/-- the areas region creation works on when the ops of a group are applied to the previous dump -/
+def areasAfter (d : ImplDump) (ops : List Op) : List Components.Area :=
+  let cands := if ops.any (fun o => match o with | .clearCands | .clearProtos => true | _ => false) then [] else d.cands
+  let subs := if ops.any (fun o => match o with | .clearSubs => true | _ => false) then [] else d.subs
+  (cands ++ subs).map fun x => (x.1, x.2.2)
+
+/-- area well-formedness of every location an op introduces (the hypothesis of the theorems) -/
+def opScope (L : Int) (circ : Bool) : Op → Bool
+  | .addProto l => areaWF (if circ then L else 0) L l
+  | .addSub l => areaWF (if circ then L else 0) L l
+  | _ => true
+
+/-- are the record's regions the automatically created ones for the *current* areas?
+    (`exist` = regions exist before the op) -/
+def expectAfter (e : Bool) (exist : Bool) : Op → Bool
+  | .createRegions => !exist
+  | .clearProtos | .clearCands | .clearSubs => if exist then true else e
+  | .clearRegions => false
+  | .addRegion _ _ => false
+  | .addProto _ | .mkCand _ | .reparent _ _ => e
+  | .addSub _ | .addCand _ => false
+
+def runTracking (s : State) (e : Bool) : List Op → E State × Bool
+  | [] => (.ok s, e)
+  | op :: rest =>
+    let e' := expectAfter e (!s.regions.isEmpty) op
+    match step s op with
+    | .ok s' => runTracking s' e' rest
+    | .error err => (.error err, e')
+
+def handle (j : Json) : R Json := do
+  let L ← intF j "len"
+  let circ ← boolF j "circ"
+  let cds ← listOf locOfJson (fldD j "cds" (jArr []))
+  let groups ← arrF j "groups"
+  let mut st : E State := .ok { len := L, circular := circ, cds := cds }
+  let mut out : List Json := []
+  let mut scope := true
+  let mut fresh := false
+  let mut prev : ImplDump := ⟨[], [], [], []⟩
+  for g in groups do
+    let ops ← listOf opOfJson (← fld g "ops")
+    scope := scope && ops.all (opScope L circ)
+    match st with
+      | .ok s =>
+        let r := runTracking s fresh ops
+        st := r.1
+        fresh := r.2
+      | .error _ => pure ()
+    let model := match st with
+      | .ok s => dump s
+      | .error e => jObj [("err", Json.str e)]
+    let impl := fldD g "impl" Json.null
+    let spec ← match impl.getObjVal? "protos" with
+      | .ok _ => do
+        let d ← implOfJson impl
+        prev := d
+        pure (specOn L circ d)
+      | .error _ => pure (jObj [("half", toJson (circ && Components.halfRecordComponent L (areasAfter prev ops)))])
+    out := out ++ [jObj [("model", model), ("spec", spec), ("expect_components", toJson fresh)]]
+  return jObj [("steps", jArr out), ("scope", toJson scope)]
 
 end ASV.Drv.C06
